@@ -237,6 +237,19 @@ func (o *originRT) RoundTrip(req *http.Request) (*http.Response, error) {
 		planIdx = r.resCnt[res] % len(rs.Plans)
 		r.resCnt[res]++
 		plan = &rs.Plans[planIdx]
+		for i := range r.Scn.UpFaults {
+			if uf := &r.Scn.UpFaults[i]; uf.Nth == call.ID {
+				cp := *plan
+				switch uf.Fault {
+				case "status":
+					cp.Status, cp.Fault = uf.Status, ""
+					cp.No304 = true
+				default:
+					cp.Fault, cp.FaultAt = uf.Fault, uf.At
+				}
+				plan = &cp
+			}
+		}
 		if plan.Change {
 			r.resVer[res]++
 			r.resLM[res] = r.Sim.Now().Truncate(time.Second)
